@@ -17,7 +17,7 @@
  *                                path), the cache value, or the reference of
  *                                the last entry matched; every entry was
  *                                released
- * Bounded: PLEN <= 4, RP_MAXENT 2, RP_MAXNAME 3.
+ * Bounded: PLEN <= 3 (4 did not finish in 170 s), RP_MAXENT 2, RP_MAXNAME 3.
  */
 #include <stdlib.h>
 #include <string.h>
